@@ -222,6 +222,15 @@ def check_apply(p, mod, res):
     for n in ast.walk(init.node):
         if isinstance(n, ast.Call) and isinstance(n.func, ast.Attribute) and n.func.attr == "register_buffer" and len(n.args) >= 2 and isinstance(n.args[0], ast.Constant):
             regs[n.args[0].value] = norm_text(n.args[1])
+    # ... or through the attribute table (self.mask = nn.Buffer(mask), a dtype cast of the pair's element)
+    table = p.attrs(ml)
+    for nm in ("mask", "degrees"):
+        ai = table.get(nm)
+        v = getattr(ai, "value", None) if ai is not None else None
+        while isinstance(v, ast.Call) and isinstance(v.func, ast.Attribute) and v.func.attr in ("to", "float", "double", "type_as", "clone", "contiguous") and isinstance(v.func.value, (ast.Name, ast.Call)):
+            v = v.func.value
+        if nm not in regs and isinstance(v, ast.Name):
+            regs[nm] = v.id
     unpack = [n for n in ast.walk(init.node) if isinstance(n, ast.Assign) and isinstance(n.targets[0], ast.Tuple) and isinstance(n.value, ast.Call) and "_get_mask_and_degrees" in norm_text(n.value.func)]
     if unpack and len(unpack[0].targets[0].elts) == 2:
         a, b = (norm_text(e) for e in unpack[0].targets[0].elts)
